@@ -35,8 +35,11 @@ def cs(s):
 # a description is a list of classes in dependency order:
 #   {"name", "key": None | name, "overflow": None | name,
 #    "attrs": [{"name", "ty", "form", "default"}]}
-# ty: int | str | list | dict | set | nested:X | list_nested:X | dict_nested:X | klist:X | kset:X
-# form: none | value (default int) | noinit (Attr(default=int, init=False)) | factory | property
+# ty: int | str | bool | float | opt (Optional[int]) | list | dict | set | nested:X | list_nested:X | dict_nested:X
+#     | klist:X | kset:X
+# form: none | value (default: an int, or for the other plain types any literal of the type -- a TRUTHY one, so that
+#       a falsy value handed over and lost is told from the default) | noinit (Attr(default=int, init=False)) | factory
+#       | property
 def build_classes(desc):
     from spec_classes import Attr, spec_class
     from spec_classes.types import KeyedList, KeyedSet
@@ -47,7 +50,8 @@ def build_classes(desc):
             ty = a["ty"]
             base, _, ref = ty.partition(":")
             T = {"int": int, "str": str, "list": typing.List[int], "dict": typing.Dict[str, int],
-                 "set": typing.Set[int], "any": typing.Any}.get(base)
+                 "set": typing.Set[int], "any": typing.Any, "bool": bool, "float": float,
+                 "opt": typing.Optional[int]}.get(base)
             if base == "nested":
                 T = env[ref]
             elif base == "list_nested":
@@ -61,7 +65,7 @@ def build_classes(desc):
             ann[a["name"]] = T
             f = a.get("form", "none")
             if f == "value":
-                ns[a["name"]] = a["default"]
+                ns[a["name"]] = py_default(a)
             elif f == "noinit":
                 ns[a["name"]] = Attr(default=a["default"], init=False)
             elif f == "factory":
@@ -81,6 +85,12 @@ def build_classes(desc):
             kw["frozen"] = True
         env[cd["name"]] = spec_class(**kw)(cls)
     return env
+
+
+def py_default(a):
+    """the Python object a description's default stands for (JSON has no sets: a set default is stored as a list)"""
+    d = a["default"]
+    return set(d) if a["ty"] == "set" and isinstance(d, list) else d
 
 
 def prepare(desc):
@@ -137,7 +147,7 @@ def ncls_of(cd):
         if a["name"].startswith("_") and a["name"] != eff_key(cd):
             continue
         f = a.get("form", "none")
-        d = a["default"] if f in ("value", "noinit") else 0
+        d = default_code(a) if f in ("value", "noinit") else 0
         out.append((a["name"], f != "noinit", d))
         seen.add(a["name"])
     # private key attributes are appended after the managed ones (helpers=False)
@@ -147,6 +157,16 @@ def ncls_of(cd):
     if ov and ov not in seen:
         out.append((ov, True, 0))
     return out + priv, ov
+
+
+def default_code(a):
+    """the code enc_default gives the default of attribute a (ints stand for themselves)"""
+    d = a["default"]
+    if d is False:
+        return 1
+    if d is True:
+        return 2
+    return d if isinstance(d, int) else 999
 
 
 def c_ncls(n):
@@ -759,6 +779,329 @@ def pair_effects(env, by_name, cd, cls, mname, pat, kind, adv):
     return out
 
 
+# ------------------------------------------------------------------ falsy values of advertised keywords on the real methods
+FALSY = {"int": [0], "bool": [False], "float": [0.0], "str": [""], "opt": [None, 0], "list": [[]], "dict": [{}],
+         "set": [set()], "list_nested": [[]], "dict_nested": [{}]}
+
+
+def enc_fobs(v):
+    """observation code that keeps type AND value of the falsy values apart (0 / False / 0.0 are equal in Python);
+    None = nothing there"""
+    from spec_classes.types import MISSING
+    if v is MISSING:
+        return None
+    if v is None:
+        return -13
+    if isinstance(v, bool):
+        return -22 if v else -21
+    if isinstance(v, int):
+        return v
+    if isinstance(v, float):
+        return -23 if v == 0 else -24
+    if isinstance(v, str):
+        if v == "":
+            return -25
+        return int(v[1:]) if v[:1] == "s" and v[1:].isdigit() else -26
+    for T, code in ((list, -27), (dict, -29), (set, -31)):
+        if type(v) is T:
+            return code if not v else code - 1
+    return -1
+
+
+def falsy_keywords(target_cd, names=None):
+    """[(keyword, falsy conforming value)] for the init-enabled plain attributes of a class (not its key, its overflow
+    attribute, private, masked or named `kwargs`); `opt` attributes get None and 0"""
+    out = []
+    for a in all_attrs(target_cd):
+        n = a["name"]
+        if n.startswith("_") or n in (eff_key(target_cd), eff_overflow(target_cd), "kwargs"):
+            continue
+        if a.get("form", "none") not in ("none", "value", "factory") or (names is not None and n not in names):
+            continue
+        out += [(n, f) for f in FALSY.get(a["ty"].partition(":")[0], [])]
+    return out
+
+
+def falsy_effects(env, by_name, cd, cls, mname, pat, kind, adv):
+    """FALSY but conforming values (0, False, 0.0, "", None for Optional, [], {}, set()) for every advertised keyword, on
+    the REAL methods, in every call form -- in particular the forms in which the nested value / element has to be
+    CONSTRUCTED from the keywords (`with_<attr>(kw)`, `update_<attr>(kw)` on an unset attribute, `with_<item>(kw)` on
+    an unset / a filled collection, `with_<item>(_index=i, kw)` replacing / inserting, `with_<item>(key, kw)`), the dict
+    and instance forms, updates and attribute transforms of existing values, the constructor, the top-level
+    update / transform, and the value parameter of the helpers of plain attributes and plain collections
+    (`with_<attr>(0)`, `with_<item>("k", 0)`).  The attribute defaults of the descriptions are truthy or absent, so a
+    value that is dropped on the way (`if value:` for `if value is not MISSING`) shows as default / nothing.  Same
+    oracle as the other effect calls (`SigCorr.effect_ok` / `SigSpec.lands`), observation codes `enc_fobs`."""
+    from spec_classes.types import MISSING
+    adv_names = [p[0] for p in adv]
+    catch_all = any(p[1] == "VarKw" for p in adv)
+    target_cd, mode, op, attr, a = None, None, None, None, None
+    if mname == "__init__":
+        target_cd, mode, op = cd, "init", "init"
+    elif mname in ("update", "transform") and not isinstance(pat, tuple):
+        target_cd, mode, op = cd, "top", mname
+    else:
+        if isinstance(pat, tuple):
+            attr, op = pat[1], pat[0]
+        elif "_" in mname:
+            op, attr = mname.split("_", 1)
+        a = next((x for x in cd["attrs"] if x["name"] == attr), None)
+        if a is None or op not in ("with", "update", "transform") or attr.startswith("_"):
+            return []
+        base, _, ref = a["ty"].partition(":")
+        if isinstance(pat, tuple):
+            if base in ("list_nested", "dict_nested", "klist", "kset"):
+                target_cd, mode = by_name[ref], base
+            elif base in ("list", "dict", "set"):
+                target_cd, mode = cd, "elem_" + base
+        elif base == "nested":
+            target_cd, mode = by_name[ref], "attr"
+        elif base in FALSY:
+            target_cd, mode = cd, "scalar"
+    if target_cd is None:
+        return []
+    tn = ncls_of(target_cd)
+    tcls = env[target_cd["name"]]
+    tkey = eff_key(target_cd)
+    tkey_ty = next((x["ty"] for x in all_attrs(target_cd) if x["name"] == tkey), None) if tkey else None
+    if tkey and tkey_ty not in ("str", "int"):
+        return []
+    if mode in ("klist", "kset") and tkey_ty != "str":
+        return []
+    out = []
+
+    def keyval(i):
+        return f"s{900 + i}" if tkey_ty == "str" else 900 + i
+
+    def keykw(i):
+        return {tkey: keyval(i)} if tkey else {}
+
+    def observe(label, kw, target, expect=None):
+        d = object.__getattribute__(target, "__dict__")
+        ov = d.get(tn[1]) if tn[1] else None
+        out.append((tn, [(k, enc_fobs(v), enc_fobs(d.get(k, MISSING)),
+                          enc_fobs(ov.get(k, MISSING)) if isinstance(ov, dict) else None) for k, v in kw.items()], label))
+
+    def attempt(label, kw, fn):
+        """fn() -> the object the keywords are for"""
+        try:
+            observe(label, kw, fn())
+        except BaseException as e:
+            if isinstance(e, (KeyboardInterrupt, SystemExit)):
+                raise
+            out.append((tn, [(k, enc_fobs(v), None, None) for k, v in kw.items()] or [("<call>", 0, None, None)],
+                        label + f" raised {type(e).__name__}: {str(e)[:120]}"))
+
+    def show(kw):
+        return ", ".join(f"{k}={v!r}" for k, v in kw.items())
+
+    def funcs(kw):
+        return {k: (lambda old, v=v: copy.copy(v)) for k, v in kw.items()}
+
+    # ---- the value parameter of plain attribute / plain collection helpers
+    if mode == "scalar":
+        if a.get("form", "none") not in ("none", "value", "factory") or attr in (eff_key(cd), eff_overflow(cd), "kwargs"):
+            return []
+        for f in FALSY[a["ty"].partition(":")[0]]:
+            kw = {attr: f}
+            recv = make_instance(cls, cd)
+            if op == "with":
+                attempt(f"{mname}({f!r})", kw, lambda: getattr(recv, mname)(copy.copy(f)))
+                attempt(f"{mname}(_new_value={f!r})", kw, lambda: getattr(recv, mname)(_new_value=copy.copy(f)))
+            elif op == "update":
+                attempt(f"{mname}({f!r})", kw, lambda: getattr(recv, mname)(copy.copy(f)))
+                if not cd.get("frozen"):
+                    attempt(f"{mname}(_new_value={f!r}, _inplace=True)", kw,
+                            lambda: getattr(recv, mname)(_new_value=copy.copy(f), _inplace=True))
+            elif a.get("form", "none") == "value":
+                attempt(f"{mname}(lambda old: {f!r})", kw, lambda: getattr(recv, mname)(lambda old: copy.copy(f)))
+                attempt(f"{mname}(_transform=lambda old: {f!r})", kw,
+                        lambda: getattr(recv, mname)(_transform=lambda old: copy.copy(f)))
+        return out
+    if mode.startswith("elem_"):
+        if a.get("form", "none") not in ("none", "value", "factory") or attr in (eff_overflow(cd), "kwargs"):
+            return []
+        recv0 = make_instance(cls, cd)
+        m = lambda r: getattr(r, mname)
+
+        def elem(label, fn, pick):
+            # the attribute's name stands for the element: (attribute, value given, element found at the place, -)
+            try:
+                got = pick(getattr(fn(), attr))
+                out.append((tn, [(attr, enc_fobs(0), enc_fobs(got), None)], label))
+            except BaseException as e:
+                if isinstance(e, (KeyboardInterrupt, SystemExit)):
+                    raise
+                out.append((tn, [(attr, enc_fobs(0), None, None)], label + f" raised {type(e).__name__}: {str(e)[:120]}"))
+        if mode == "elem_list":
+            full = getattr(recv0, "with_" + attr)([5, 6])
+            if op == "with":
+                elem(f"{mname}(0) on an unset attribute", lambda: m(recv0)(0), lambda c: c[-1])
+                elem(f"{mname}(0)", lambda: m(full)(0), lambda c: c[-1] if len(c) == 3 else MISSING)
+                elem(f"{mname}(_item=0, _index=0)", lambda: m(full)(_item=0, _index=0), lambda c: c[0])
+                elem(f"{mname}(0, _index=0, _insert=True)", lambda: m(full)(0, _index=0, _insert=True), lambda c: c[0])
+            elif op == "update":
+                elem(f"{mname}(1, 0, _by_index=True)", lambda: m(full)(1, 0, _by_index=True), lambda c: c[1])
+                elem(f"{mname}(5, _new_item=0)", lambda: m(full)(5, _new_item=0), lambda c: c[0])
+            else:
+                elem(f"{mname}(1, lambda old: 0, _by_index=True)", lambda: m(full)(1, lambda old: 0, _by_index=True), lambda c: c[1])
+        elif mode == "elem_dict":
+            full = getattr(recv0, "with_" + attr)({"ka": 5, "kb": 6})
+            if op == "with":
+                elem(f"{mname}('k', 0) on an unset attribute", lambda: m(recv0)("k", 0), lambda c: c["k"])
+                elem(f"{mname}('kc', 0)", lambda: m(full)("kc", 0), lambda c: c["kc"])
+                elem(f"{mname}('ka', 0)", lambda: m(full)("ka", 0), lambda c: c["ka"])
+                elem(f"{mname}(_key='kc', _value=0)", lambda: m(full)(_key="kc", _value=0), lambda c: c["kc"])
+                elem(f"{mname}('', 0): falsy key", lambda: m(full)("", 0), lambda c: c[""])
+            elif op == "update":
+                elem(f"{mname}('kb', 0)", lambda: m(full)("kb", 0), lambda c: c["kb"])
+            else:
+                elem(f"{mname}('kb', lambda old: 0)", lambda: m(full)("kb", lambda old: 0), lambda c: c["kb"])
+        else:
+            full = getattr(recv0, "with_" + attr)({5, 6})
+            has0 = lambda c: 0 if any(x == 0 and type(x) is int for x in c) else MISSING
+            if op == "with":
+                elem(f"{mname}(0) on an unset attribute", lambda: m(recv0)(0), has0)
+                elem(f"{mname}(0)", lambda: m(full)(0), lambda c: has0(c) if len(c) == 3 else MISSING)
+            elif op == "update":
+                elem(f"{mname}(5, 0)", lambda: m(full)(5, 0), lambda c: has0(c) if 5 not in c else MISSING)
+            else:
+                elem(f"{mname}(5, lambda old: 0)", lambda: m(full)(5, lambda old: 0), lambda c: has0(c) if 5 not in c else MISSING)
+        return out
+
+    # ---- keywords naming attributes of the target class
+    fk = [(k, f) for k, f in falsy_keywords(target_cd) if k in adv_names or catch_all]
+    if not fk:
+        return []
+    truthy = [(k, typed_value(target_cd, k, 7000 + i)) for i, k in enumerate(judged_attrs(target_cd)) if k in adv_names]
+    sets = [{k: f} for k, f in fk[:12]]
+    for i, (k, f) in enumerate(fk[:3]):
+        other = next(((k2, v2) for k2, v2 in truthy if k2 != k), None)
+        if other:
+            sets.append({k: f, other[0]: other[1]} if i % 2 else {other[0]: other[1], k: f})  # either order
+        nxt = next(((k2, f2) for k2, f2 in fk[i + 1:] if k2 != k), None)
+        if nxt:
+            sets.append({k: f, nxt[0]: nxt[1]})
+    # keywords only the ** catch-all covers (constructing forms only: the value lands in the overflow dictionary)
+    over = []
+    if catch_all and tn[1]:
+        hidden = [x["name"] for x in all_attrs(target_cd) if x.get("form") == "noinit"][:1]
+        over = [{"zzz": 0}, {"yyy": False, "zzz": ""}] + [{h: 0} for h in hidden] + ([dict(sets[0], zzz=None)] if sets else [])
+    fresh = lambda kw: {k: copy.copy(v) for k, v in kw.items()}
+    frozen_holder = bool(cd.get("frozen"))
+
+    if mode == "init":
+        for kw in sets + over:
+            attempt(f"{cd['name']}({show(kw)})", kw, lambda: cls(**keykw(0), **fresh(kw)))
+        return out
+    if mode == "top":
+        for i, kw in enumerate(sets):
+            recv = make_instance(cls, cd)
+            if op == "update":
+                attempt(f"update({show(kw)})", kw, lambda: recv.update(**fresh(kw)))
+                if i % 2 == 0 and not frozen_holder:
+                    attempt(f"update({show(kw)}, _inplace=True)", kw, lambda: recv.update(**fresh(kw), _inplace=True))
+                if i % 2 == 1:
+                    attempt(f"update(<replacement>, {show(kw)})", kw, lambda: recv.update(make_instance(cls, cd), **fresh(kw)))
+            else:
+                attempt(f"transform({show(kw)} as functions)", kw, lambda: recv.transform(**funcs(kw)))
+                if i % 2 == 0:
+                    attempt(f"transform(lambda o: o, {show(kw)} as functions)", kw, lambda: recv.transform(lambda o: o, **funcs(kw)))
+        return out
+
+    def holder():
+        return make_instance(cls, cd)
+
+    if mode == "attr":
+        def filled():
+            return getattr(holder(), "with_" + attr)(tcls(**keykw(0)))
+        G = lambda r: getattr(r, attr)
+        for i, kw in enumerate(sets + over):
+            named = i < len(sets)
+            if op in ("with", "update"):
+                # the nested value has to be constructed
+                attempt(f"{mname}({show(kw)}) on an unset attribute", {**keykw(1), **kw},
+                        lambda: G(getattr(holder(), mname)(**keykw(1), **fresh(kw))))
+                if op == "with" and i % 2 == 0:
+                    attempt(f"{mname}({show(kw)}) on a set attribute", {**keykw(1), **kw},
+                            lambda: G(getattr(filled(), mname)(**keykw(1), **fresh(kw))))
+                if i % 3 == 0:
+                    attempt(f"{mname}({{}}, {show(kw)}): dict form", {**keykw(1), **kw},
+                            lambda: G(getattr(holder(), mname)({}, **keykw(1), **fresh(kw))))
+                if named and i % 3 == 1:
+                    attempt(f"{mname}(<instance>, {show(kw)})", kw,
+                            lambda: G(getattr(holder(), mname)(tcls(**keykw(2)), **fresh(kw))))
+                if named and op == "update":
+                    inpl = i % 2 == 1 and not frozen_holder
+                    attempt(f"{mname}({show(kw)}{', _inplace=True' if inpl else ''}) on a set attribute", kw,
+                            lambda: G(getattr(filled(), mname)(**fresh(kw), **({"_inplace": True} if inpl else {}))))
+            elif named:
+                inpl = i % 2 == 1 and not frozen_holder
+                attempt(f"{mname}({show(kw)} as functions{', _inplace=True' if inpl else ''})", kw,
+                        lambda: G(getattr(filled(), mname)(**funcs(kw), **({"_inplace": True} if inpl else {}))))
+                if i % 3 == 0:
+                    attempt(f"{mname}(lambda o: o, {show(kw)} as functions)", kw,
+                            lambda: G(getattr(filled(), mname)(lambda o: o, **funcs(kw))))
+        return out
+
+    # ---- elements of List / Dict / KeyedList / KeyedSet of spec instances
+    is_map = mode == "dict_nested"
+
+    def filled():
+        e0, e1 = tcls(**keykw(0)), tcls(**keykw(1))
+        return getattr(holder(), "with_" + attr)({"ka": e0, "kb": e1} if is_map else [e0, e1])
+
+    def coll(r):
+        return getattr(r, attr)
+
+    def by_key(c, i):
+        return next(x for x in c if getattr(x, tkey) == keyval(i))
+
+    keyed_coll = mode in ("klist", "kset")
+    for i, kw in enumerate(sets + over):
+        named = i < len(sets)
+        if op == "with":
+            full = {**keykw(5), **kw}
+            pick_new = (lambda c: c["kc"]) if is_map else (lambda c: by_key(c, 5)) if keyed_coll else (lambda c: list(c)[-1])
+            K = ["kc"] if is_map else []
+            attempt(f"{mname}({show(kw)}) on an unset attribute", full,
+                    lambda: pick_new(coll(getattr(holder(), mname)(*K, **keykw(5), **fresh(kw)))))
+            attempt(f"{mname}({show(kw)}) on a filled collection", full,
+                    lambda: pick_new(coll(getattr(filled(), mname)(*K, **keykw(5), **fresh(kw)))))
+            if i % 3 == 0:
+                attempt(f"{mname}({{}}, {show(kw)}): dict form", full,
+                        lambda: pick_new(coll(getattr(filled(), mname)(*K, {}, **keykw(5), **fresh(kw)))))
+            if named and i % 3 == 1:
+                attempt(f"{mname}(<instance>, {show(kw)})", kw,
+                        lambda: pick_new(coll(getattr(filled(), mname)(*K, tcls(**keykw(5)), **fresh(kw)))))
+            if is_map and i % 2 == 0:
+                attempt(f"{mname}('ka', {show(kw)}): key present", full,
+                        lambda: coll(getattr(filled(), mname)("ka", **keykw(5), **fresh(kw)))["ka"])
+            if mode in ("list_nested", "klist") and "_index" in adv_names:
+                pick0 = (lambda c: by_key(c, 5)) if keyed_coll else (lambda c: list(c)[0])
+                attempt(f"{mname}(_index=0, {show(kw)}): replacement built from the keywords", full,
+                        lambda: pick0(coll(getattr(filled(), mname)(_index=0, **keykw(5), **fresh(kw)))))
+                if i % 2 == 0 and "_insert" in adv_names:
+                    attempt(f"{mname}(_index=0, _insert=True, {show(kw)})", full,
+                            lambda: pick0(coll(getattr(filled(), mname)(_index=0, _insert=True, **keykw(5), **fresh(kw)))))
+        elif named:
+            if is_map:
+                sel, ctl, pick = "kb", {}, (lambda c: c["kb"])
+            elif keyed_coll and (mode == "kset" or i % 2 == 0):
+                sel, ctl, pick = keyval(1), {}, (lambda c: by_key(c, 1))
+            else:
+                sel, ctl, pick = 1, {"_by_index": True}, (lambda c: list(c)[1])
+            if op == "update":
+                attempt(f"{mname}({sel!r}, {show(kw)})", kw, lambda: pick(coll(getattr(filled(), mname)(sel, **fresh(kw), **ctl))))
+                if i % 3 == 1:
+                    attempt(f"{mname}({sel!r}, <instance>, {show(kw)})", kw,
+                            lambda: pick(coll(getattr(filled(), mname)(sel, tcls(**keykw(1)), **fresh(kw), **ctl))))
+            else:
+                attempt(f"{mname}({sel!r}, {show(kw)} as functions)", kw,
+                        lambda: pick(coll(getattr(filled(), mname)(sel, **funcs(kw), **ctl))))
+    return out
+
+
 def c_effect(e):
     tn, obs = e[0], e[1]
     n = c_ncls(tn)[len("(Some "):-1]
@@ -791,6 +1134,7 @@ def cases_for(desc, only=None):
             obs = run_calls(f, inst, adv, calls)
             effects = effects_for(env, by_name, cd, cls, mname, pat, kind, adv)
             effects += pair_effects(env, by_name, cd, cls, mname, pat, kind, adv)
+            effects += falsy_effects(env, by_name, cd, cls, mname, pat, kind, adv)
             out.append({"cls": cd["name"], "method": mname, "kind": kind, "nested": nested, "adv": adv,
                         "real": real, "impl": impl_ps, "obs": obs, "effects": effects})
     return out
@@ -963,6 +1307,30 @@ FIXED.append([
                                    {"name": "grand", "ty": "nested:RGrand"}, {"name": "grand2", "ty": "nested:RGrand2"},
                                    {"name": "ovc", "ty": "nested:ROvChild"}, {"name": "kids", "ty": "list_nested:RChild"},
                                    {"name": "bykey", "ty": "dict_nested:RGrand"}]},
+])
+# plain attributes of every type with a TRUTHY default (and some without any), so that a FALSY value handed over by
+# keyword and lost behind the wrapper (0, False, 0.0, "", None, [], {}, set()) is told from the default; keyed, overflow,
+# frozen and re-defaulting variants, and a holder with nested / list / dict / KeyedList / KeyedSet elements of them
+FIXED.append([
+    {"name": "FChild", "attrs": [_iv("x", 71), _iv("flag", True, ty="bool"), _iv("label", "dflt", ty="str"),
+                                 _iv("tags", [1], ty="list"), _iv("opt", 3, ty="opt"), _iv("ratio", 1.5, ty="float"),
+                                 _iv("m", {"a": 1}, ty="dict"), _iv("st", [1], ty="set"), _iv("bare", None, "none", "str"),
+                                 _iv("blist", None, "none", "list"), _iv("bopt", None, "none", "opt")]},
+    {"name": "FKeyed", "key": "name", "attrs": [_iv("name", None, "none", "str"), _iv("cnt", 72), _iv("on", True, ty="bool"),
+                                                _iv("note", 4, ty="opt"), _iv("txt", "t", ty="str")]},
+    {"name": "FOv", "overflow": "extra", "attrs": [_iv("a", 73), _iv("fl", True, ty="bool"), _iv("hid", 74, "noinit")]},
+    {"name": "FFrozen", "frozen": True, "attrs": [_iv("fa", 75), _iv("fo", 5, ty="opt"), _iv("fs", "f", ty="str")]},
+    {"name": "FSub", "base": "FChild", "attrs": [_iv("y", 77), _iv("w", 2.5, ty="float")], "redefaults": [{"name": "x", "default": 76}]},
+    {"name": "FHolder", "attrs": [{"name": "child", "ty": "nested:FChild"}, {"name": "kid", "ty": "nested:FKeyed"},
+                                  {"name": "ov", "ty": "nested:FOv"}, {"name": "fr", "ty": "nested:FFrozen"},
+                                  {"name": "sub", "ty": "nested:FSub"},
+                                  {"name": "items", "ty": "list_nested:FChild"}, {"name": "named", "ty": "dict_nested:FChild"},
+                                  {"name": "kl", "ty": "klist:FKeyed"}, {"name": "kt", "ty": "kset:FKeyed"},
+                                  {"name": "ovs", "ty": "list_nested:FOv"}, {"name": "byk", "ty": "dict_nested:FKeyed"},
+                                  {"name": "frs", "ty": "list_nested:FFrozen"},
+                                  _iv("n", 78), _iv("b", True, ty="bool"), _iv("o", 6, ty="opt"), _iv("s", "hs", ty="str"),
+                                  _iv("f", 3.5, ty="float"), _iv("nums", [4], ty="list"), _iv("tab", {"k": 4}, ty="dict"),
+                                  _iv("uni", [4], ty="set")]},
 ])
 NAMES = ["a", "b", "p", "q", "x", "y", "items", "values", "name", "size", "kwargs", "flags", "opts", "node", "key_", "v"]
 
